@@ -134,7 +134,7 @@ def registry():
             assumptions=['the weight calculus of DESIGN.md sec. 2.3 (an algebraic invariant of truncated power series)',
                          'kernel naming convention _NAME <-> NumPy/SciPy function NAME'])
         reg['C02'] = dict(
-            rules=[G.rule_grade('C02'), S.rule_kinds, S.rule_kernel_dtype, S.rule_reflect],
+            rules=[G.rule_grade('C02'), S.rule_kinds, S.rule_kernel_dtype, S.rule_reflect, G.rule_alias],
             explanation='Static decision of structural conditions of the arithmetic operators: the convolution kernels and all eleven operator '
                         'bodies are homogeneous in the grading (O3: in particular a scalar/array constant meets coefficient 0 only for +,- '
                         'and every coefficient for *,/) with maximal ranges (O4); evidence rules on constants and result dtypes (C02.kinds); '
